@@ -16,6 +16,8 @@ import threading
 from vlib.memrun import J, canon_result, clear_all_lru, outcome_of, val5
 from vlib.obs import exc_name, obs
 
+DIGITS = 700        # main() lowers the interpreter's int <-> str digit limit to its minimum (640), so 700 digits are "too many"
+HUGEPORT = "http://example.com:" + "0" * DIGITS + "8080/t"      # int() of the port text exceeds the digit limit: ValueError
 STRS = ["http://u:p@EXample.com:80/a%20b/../c?x=1#f", "http://example.com/é/ü?q=é#ü", "https://[2001:DB8::1]:8443/p/q.tar.gz?a=1&b=2",
         "http://bücher.example/straße", "/a/b/../c", "http://example.com/?a=1&b=2&a=3", "http://Ab_c.é.com/x"]
 FIELDS = ["str", "raw_user", "raw_password", "raw_host", "host", "port", "explicit_port", "raw_path", "path", "query", "raw_parts",
@@ -27,16 +29,18 @@ def make_prog(rnd, marker, nops):
     for _ in range(nops):
         r = rnd.random()
         if r < 0.25:
-            ops.append(("ctor", rnd.choice(STRS)))
+            ops.append(("ctor", rnd.choice(STRS + [HUGEPORT])))
         elif r < 0.5:
             ops.append(("read", rnd.choice(STRS), rnd.sample(FIELDS, rnd.choice((1, 3, 6)))))
         elif r < 0.7:
             ops.append(("derive", rnd.choice(STRS), rnd.choice(["div", "with_query", "with_host", "with_port", "with_path", "join", "origin",
-                                                              "with_user", "parent", "with_fragment"])))
+                                                              "with_user", "parent", "with_fragment", "with_query_bigint", "with_query_floats"])))
         elif r < 0.85:
             # a component that needs quoting and whose quoted form is above / below 8 KiB, tagged with the thread's marker
             n = rnd.choice((50, 1400, 2800, 4200, 9000))
             ops.append(("bigquote", marker, n, rnd.choice(["path", "query", "fragment"])))
+        elif r < 0.88:
+            ops.append(("ambient",))
         elif r < 0.92:
             ops.append(("clear",))
         else:
@@ -61,7 +65,10 @@ def run_op(yarl, op, facts):
         f = {"div": lambda: u / "x y", "with_query": lambda: u.with_query(a="é", b="1 2"), "with_host": lambda: u.with_host("Straße.example"),
              "with_port": lambda: u.with_port(8081), "with_path": lambda: u.with_path("/p/../q é"), "join": lambda: u.join(URL("../g?y#z")),
              "origin": lambda: u.origin(), "with_user": lambda: u.with_user("ü:x"), "parent": lambda: u.parent,
-             "with_fragment": lambda: u.with_fragment("frag ment")}[op[2]]
+             "with_fragment": lambda: u.with_fragment("frag ment"),
+             # values whose rendering goes through interpreter-wide limits: an int beyond the str() digit limit (a ValueError, the same
+             # in every thread), floats incl. both zeros
+             "with_query_bigint": lambda: u.with_query(n=10 ** DIGITS), "with_query_floats": lambda: u.with_query(a=-0.0, b=0.0, c=1e16)}[op[2]]
         res, r = outcome_of(f)
         facts.append({"k": "call:" + J([op[2], op[1]]), "v": J(canon_result(res, yarl))})
         if r is not None:
@@ -82,6 +89,20 @@ def run_op(yarl, op, facts):
             facts.append({"k": "call:" + J(["bigquote", marker, n, where]), "v": J({"roundtrip": ok, "len": len(str(r))})})
         else:
             facts.append({"k": "call:" + J(["bigquote", marker, n, where]), "v": J(res)})
+    elif k == "ambient":
+        # process-wide interpreter settings: no API call may leave -- or, seen from another thread, even temporarily put -- them
+        # in a different state
+        facts.append({"k": "ambient:int_max_str_digits", "v": J(sys.get_int_max_str_digits())})
+        facts.append({"k": "ambient:recursionlimit", "v": J(sys.getrecursionlimit())})
+    elif k == "fresh":
+        # values never seen before (distinct dotted paths / hosts / queries): misses in every module-level memo, i.e. stores and,
+        # once a memo is full, evictions -- concurrently
+        tag = op[1]
+        for f in (lambda: URL(f"http://h{tag}.example/a/./{tag}/../b/%2e/c?x={tag}"), lambda: URL("http://example.com/q").with_path(f"/p/./{tag}/../r"),
+                  lambda: URL("http://example.com/a/b").join(URL(f"../{tag}/./s")), lambda: URL(f"/rel/{tag}/../t") / f"u{tag}" ):
+            res, _ = outcome_of(f)
+            if isinstance(res, dict) and "exc" in res:
+                raise RuntimeError("a valid, never seen value raised " + str(res))
     elif k == "clear":
         yarl.cache_clear()
     elif k == "configure":
@@ -91,6 +112,10 @@ def run_op(yarl, op, facts):
             yarl.cache_configure(idna_encode_size=op[1], idna_decode_size=op[1], encode_host_size=op[1])
 
 
+import re as _re
+_EXC_RE = _re.compile(r'"exc":\s*"([A-Za-z_]+)"')
+
+
 def run_prog(yarl, ops, tid, phase, events):
     for i, op in enumerate(ops):
         ev = {"kind": "thread-" + op[0], "tid": tid, "seq": i, "phase": phase, "facts": []}
@@ -98,6 +123,10 @@ def run_prog(yarl, ops, tid, phase, events):
             run_op(yarl, op, ev["facts"])
         except BaseException as e:  # noqa: BLE001
             ev["crash"] = exc_name(e) + ":" + str(e)[:200]
+        # every exception class that showed up in this step's observations (call outcomes and accessor reads)
+        excs = sorted({m for f in ev["facts"] for m in _EXC_RE.findall(f["v"])})
+        if excs:
+            ev["excs"] = excs
         events.append(ev)
 
 
@@ -188,6 +217,10 @@ def systematic_pairs(yarl, be, root, seed, n_pairs, outdir, stride):
     for d in DERIVES[:5]:
         templates.append((("derive", d), ("derive", d)))
     templates.append((("ctor",), ("ctor",)))
+    for d in ("with_query_bigint", "with_query_floats"):
+        templates.append((("derive", d), ("ambient",)))
+        templates.append((("derive", d), ("hugeport",)))
+        templates.append((("derive", d), ("derive", d)))
     # deterministic partition of ALL templates over the jobs (seed % 4 = job index), so every pair is covered in every run
     njobs = 4
     mine = [t for i, t in enumerate(templates) if i % njobs == seed % njobs][:n_pairs]
@@ -199,6 +232,10 @@ def systematic_pairs(yarl, be, root, seed, n_pairs, outdir, stride):
                 return [("derive", s_, op[1])]
             if op[0] == "read":
                 return [("read", s_, op[1])]
+            if op[0] == "ambient":
+                return [("ambient",)]
+            if op[0] == "hugeport":
+                return [("ctor", HUGEPORT + "?" + s_[-12:])]
             return [("ctor", s_)]
         # yield count of thread 0 alone
         s0 = base + ("&" if "?" in base else "?") + f"sys{seed}x{ti}probe"
@@ -206,7 +243,8 @@ def systematic_pairs(yarl, be, root, seed, n_pairs, outdir, stride):
         probe = Sched([0] * 100000, root)
         probe.run([lambda: run_prog(yarl, mk(a, s0), 0, "probe", []), lambda: None])
         total = probe.yields
-        for k in range(0, total + 1, stride):
+        # at most ~150 pre-emption points per pair (a uniform sub-sample when the call has thousands of yield points)
+        for k in range(0, total + 1, max(stride, total // 150 + 1)):
             s_ = base + ("&" if "?" in base else "?") + f"sys{seed}x{ti}k{k}"
             progs = [mk(a, s_), mk(b, s_)]
             events = []
@@ -313,6 +351,7 @@ def model_schedules(yarl, be, root, src, outdir):
 
 def main():
     outdir, seed, mode, n = sys.argv[1], int(sys.argv[2]), sys.argv[3], int(sys.argv[4])
+    sys.set_int_max_str_digits(640)
     if mode == "model":
         import yarl
         be = "py" if os.environ.get("YARL_NO_EXTENSIONS") else "c"
@@ -357,6 +396,12 @@ def main():
         clear_all_lru(yarl)
         yarl.cache_configure()
         if mode == "stress":
+            # fill every module-level memo beyond any plausible capacity first, so that the concurrent phase runs the EVICTION paths
+            for i in range(700):
+                outcome_of(lambda: yarl.URL(f"http://w{i}.example/a/./w{i}/../b?x={i}").with_path(f"/p/./{i}/../q"))
+            progs = [p + [("fresh", f"{tagq}t{t}n{j}") for j in range(30)] for t, p in enumerate(progs)]
+            for p in progs:
+                rnd.shuffle(p)
             old = sys.getswitchinterval()
             sys.setswitchinterval(1e-6)
             per = [[] for _ in range(nthreads)]
